@@ -140,7 +140,47 @@ func Digits() *rapid.Generator[int] {
 // MutateCode derives a wrong (or accidentally right) string from a code.
 func MutateCode(t *rapid.T, code string) string {
 	b := []byte(code)
-	switch rapid.IntRange(0, 13).Draw(t, "mutKind") {
+	switch rapid.IntRange(0, 15).Draw(t, "mutKind") {
+	case 14, 15: // same length, all digits, numerically congruent to the code modulo a power of two (a validator that
+		// compares numbers after a narrowing conversion accepts these): v ± 2^k for the k that fit in the width
+		v, okNum := uint64(0), len(b) > 0 && len(b) <= 19
+		for _, c := range b {
+			if c < '0' || c > '9' {
+				okNum = false
+				break
+			}
+			v = v*10 + uint64(c-'0')
+		}
+		if okNum {
+			lim := uint64(1)
+			for range b {
+				lim *= 10
+			}
+			var cand []uint64
+			for _, k := range []uint{8, 16, 24, 31, 32, 33} {
+				d := uint64(1) << k
+				if v+d < lim {
+					cand = append(cand, v+d)
+				}
+				if v >= d {
+					cand = append(cand, v-d)
+				}
+			}
+			if len(cand) > 0 {
+				// prefer the wide shifts (the last entries) half of the time
+				var w uint64
+				if rapid.Bool().Draw(t, "mutAliasWide") {
+					w = cand[len(cand)-1-rapid.IntRange(0, min(3, len(cand)-1)).Draw(t, "mutAliasHi")]
+				} else {
+					w = rapid.SampledFrom(cand).Draw(t, "mutAlias")
+				}
+				for i := len(b) - 1; i >= 0; i-- {
+					b[i] = '0' + byte(w%10)
+					w /= 10
+				}
+			}
+		}
+		return string(b)
 	case 12: // same length, numerically equal under a lenient number parser: sign in place of a leading zero
 		if len(b) > 0 {
 			b[0] = rapid.SampledFrom([]byte{'+', '-', ' '}).Draw(t, "mutSign")
